@@ -18,6 +18,31 @@ thread_local! {
     static SLEEP_HOOK: RefCell<Option<Box<dyn Fn(u64)>>> = const { RefCell::new(None) };
     /// Nanoseconds this thread has "slept" virtually; added to its monotonic clock readings.
     static VIRTUAL_SLEPT_NS: Cell<u64> = const { Cell::new(0) };
+    /// Set while the harness itself waits on this thread: its timed waits need the real clock.
+    static REAL_CLOCK_ONLY: Cell<bool> = const { Cell::new(false) };
+}
+
+/// While a value of this type lives, the calling thread reads the real monotonic clock.
+pub struct RealClock(bool);
+
+impl RealClock {
+    pub fn new() -> Self {
+        RealClock(REAL_CLOCK_ONLY.try_with(|c| c.replace(true)).unwrap_or(false))
+    }
+}
+
+impl Drop for RealClock {
+    fn drop(&mut self) {
+        let _ = REAL_CLOCK_ONLY.try_with(|c| c.set(self.0));
+    }
+}
+
+/// Let virtual time pass on the calling thread without sleeping (a slow machine: every
+/// scheduling point costs this much).
+pub fn advance_thread_clock(ns: u64) {
+    if ns > 0 {
+        let _ = VIRTUAL_SLEPT_NS.try_with(|v| v.set(v.get().saturating_add(ns)));
+    }
 }
 
 pub static VIRTUAL_SLEEPS: AtomicU64 = AtomicU64::new(0);
@@ -105,7 +130,11 @@ pub unsafe extern "C" fn clock_gettime(clk: libc::clockid_t, ts: *mut libc::time
             libc::CLOCK_MONOTONIC | libc::CLOCK_MONOTONIC_RAW | libc::CLOCK_MONOTONIC_COARSE | libc::CLOCK_BOOTTIME
         )
     {
-        let slept = VIRTUAL_SLEPT_NS.try_with(|v| v.get()).unwrap_or(0);
+        let slept = if REAL_CLOCK_ONLY.try_with(|c| c.get()).unwrap_or(true) {
+            0
+        } else {
+            VIRTUAL_SLEPT_NS.try_with(|v| v.get()).unwrap_or(0)
+        };
         if slept > 0 {
             let total = (*ts).tv_nsec as u64 + slept % 1_000_000_000;
             (*ts).tv_sec += (slept / 1_000_000_000) as libc::time_t + (total / 1_000_000_000) as libc::time_t;
